@@ -15,55 +15,55 @@ CLAIMED = {
         "DESIGN.md §3 C01",
     ),
     "C03": (
-        "exhaustive enumeration of every inherits map x presence pattern, executed on the real loader, compared with a chain-walk reference",
-        "For 3- and 4-locale sets, every map from non-default locales to {none, any locale incl. itself and the default} and, per map, one key per (value kind x defined/null/absent pattern) plus every subkey-group state combination: the loader's DefaultedLocales::compute() and the rendered (self-identifying) text of every key in every locale must equal the chain walk of the statement.",
+        "exhaustive enumeration of every inherits map x presence pattern, executed on the real loader (L1) and through the generated accessors of probe crates (L3), compared with a chain-walk reference",
+        "For 3- and 4-locale (thorough 5-locale) sets, every map from non-default locales to {none, any locale incl. itself and the default} and, per map, one key per (value kind x defined/null/absent pattern) plus every subkey-group state combination: the loader's DefaultedLocales::compute() and the rendered (self-identifying) text of every key in every locale must equal the chain walk of the statement; (L3) the same projects compiled through the proc-macro: every key read in every locale through td_string! must show the chain walk's text.",
         L1_NOTE,
         "DESIGN.md §3 C03",
     ),
     "C04": (
-        "exhaustive enumeration of range declarations x counts (all 256 for i8/u8) on the real loader against an independent spec parser + Rust comparison semantics",
+        "exhaustive enumeration of range declarations x counts (all 256 for i8/u8) on the real loader (L1), in generated match arms of probe crates (L3) and through the real code generator (L2), against an independent spec parser + Rust comparison semantics",
         "Every 1- and 2-branch (thorough: 3-branch) declaration over the spec alphabet for i8/u8 is evaluated for all 256 counts from the parsed Range<T> structures and selected at parse time through $t(r,{count:n}); wider integer types and floats are covered on boundary neighbourhoods and extremes; declarations the statement rejects must be errors, a literal count no branch contains must be an error - never a panic or a wrong branch.",
         L1_NOTE + " Rust's FromStr/PartialOrd define what bounds mean. Empty/inverted ranges may be rejected or accepted.",
         "DESIGN.md §3 C04",
     ),
     "C05": (
-        "exhaustive enumeration of plural-form subsets x rule type x locales x counts 0..=200 on the real loader against direct ICU4X calls",
+        "exhaustive enumeration of plural-form subsets x rule type x locales x counts 0..=200 on the real loader (L1) and in generated probe crates (L3) against direct ICU4X calls",
         "All 31 subsets of {zero..many}+other, cardinal and ordinal, for a locale set spanning the CLDR category patterns: merged trees evaluated for counts 0..=200 and large operands, parse-time selection for each such count and decimal operands, UnusedForm diagnostics as an exact multiset, and the error side (cardinal+ordinal under one key, collision with a plain key, forms without _other).",
         L1_NOTE,
         "DESIGN.md §3 C05",
     ),
     "C06": (
-        "exhaustive enumeration of reference chains (every name assignment), small digraphs incl. cycles, locale and namespace variants on the real loader against a pure-substitution reference",
+        "exhaustive enumeration of reference chains (every name assignment), small digraphs incl. cycles, inherits maps x null/absent targets, locale and namespace variants on the real loader (L1) and in generated probe crates (L3) against a pure-substitution reference",
         "Every chain of depth <= 2 (thorough 3) over 15 referencing forms x 7 target kinds in every assignment of key names, all digraphs on <= 3 nodes, 4-locale projects with explicit-null and inherited targets, two-namespace layouts: accepted projects must render exactly the substitution semantics in every locale, rejected ones must give an Err naming a key.",
         L1_NOTE + " A target absent from the same locale's file cannot be referenced (documented) - expected Err.",
         "DESIGN.md §3 C06",
     ),
     "C07": (
-        "exhaustive enumeration of per-locale key-set patterns x inherits x suppress_key_warnings build on the real loader against an exact-multiset diagnostics model",
+        "exhaustive enumeration of per-locale key-set patterns x inherits x suppress_key_warnings build on the real loader (L1) against an exact-multiset diagnostics model, plus positive/negative compile probes of the generated key set (L3)",
         "Every combination of presence/null/absence/group-value swap over a nested key universe, plural states and six surplus shapes for a non-default locale (thorough: a third locale with every inherits map), with and without namespaces, in the normal and the suppress_key_warnings build: the multiset of MissingKey/SurplusKey/UnusedForm diagnostics, the accessible key set, SubKeyMissmatch errors and every rendered key must be exactly what the statement says.",
         L1_NOTE,
         "DESIGN.md §3 C07",
     ),
     "C08": (
-        "exhaustive enumeration of per-locale value-kind tuples for one key on the real loader against a union-of-signatures model",
+        "exhaustive enumeration of per-locale value-kind tuples for one key on the real loader (L1) against a union-of-signatures model, plus compile probes (supplying exactly the union compiles, omitting any member does not) through the real proc-macro (L3)",
         "Every 1-, 2- and 3-tuple of value kinds across locales (string, variables with and without formatters, components, three range types, plural, foreign keys renaming or fixing the count, null, number, bool): the observed argument set (with count typing and formatter families) must be the union over locales after substitution, and count-typing conflicts must be the documented errors.",
-        L1_NOTE + " The compile-time half (omitting a member / unknown key does not compile) belongs to the L3 engine.",
+        L1_NOTE + " L3: one probe binary per omitted member, judged by `cargo check` diagnostics naming the probe file.",
         "DESIGN.md §3 C08",
     ),
     "C09": (
-        "exhaustive enumeration of token strings (<= 5/6 tokens), range specs, JSON shapes, foreign-key forms, file contents and nesting depths executed on the real loader under catch_unwind + watchdog + subprocess isolation",
+        "exhaustive enumeration of token strings (<= 5/6 tokens), range specs, JSON shapes, foreign-key forms, inherits loops, file contents and nesting depths executed on the real loader (L1), the real code generator load_locales() (L2) and the build helper (vbuild) under catch_unwind + watchdog + subprocess isolation",
         "All strings over a 21-token adversarial alphabet up to the bound go through ParsedValue::new and, for shorter ones, through real files and the whole loader; plus all range-count token strings, JSON number classes, small JSON shapes in value position, foreign-key target/argument/position products, whole-file contents, missing project pieces and 1..2000 deep/long constructs in subprocesses: every outcome must be Ok or a non-empty Err - no panic, crash, or hang.",
         L1_NOTE + " Depth bound 2000 on an 8 MiB stack.",
         "DESIGN.md §3 C09",
     ),
     "C10": (
-        "exhaustive permutation of key order (k<=4/5) over a project corpus, two fresh processes, and three front-end builds of the real loader compared by canonical dump",
+        "exhaustive permutation of key order (k<=4/5) over a project corpus, two fresh processes, and three front-end builds of the real loader compared by canonical dump (L1); generated token streams compared across permutations and processes (L2)",
         "For every corpus project every permutation of the keys of its files (reversal/rotation for larger files), nested groups reversed and {count,value} fields flipped must give the identical canonical dump (keys, signatures, effective locales, string tables, diagnostics, rendered text or error); the dump must also be identical in two fresh processes and, reduced to format-independent content, across the JSON, JSON5 and YAML builds.",
         L1_NOTE + " Numeric literal type may differ between front-ends (stated in the property).",
         "DESIGN.md §3 C10",
     ),
     "C11": (
-        "exhaustive sweep of every Unicode scalar value and nasty two-character strings through the real loader, checking every literal index against the exported table",
+        "exhaustive sweep of every Unicode scalar value and nasty two-character strings through the real loader (L1), the generated code's table sizes and indices (L2, syn visitor) and the build helper's written files (vbuild, strict JSON reader), checking every literal index against the exported table",
         "Every Unicode scalar as a one-character translation and all pairs over 14 hostile characters, in flat, nested-subkey, namespaced, defaulted and foreign-key-duplicated layouts: each Literal::String(s,i) must satisfy strings[i]==s with i in range, and the string count recorded in every (sub-)locale must equal the table length. The same invariants are checked on every project of every other L1 check.",
         L1_NOTE + " File written by the build helper / generated-code sizes: see engines vbuild / L2 in the evidence when present.",
         "DESIGN.md §3 C11",
@@ -174,7 +174,7 @@ def main():
         },
         "engines": [
             {"name": "vengine", "path": "/verif/engine", "serves_properties": sorted(CLAIMED.keys()),
-             "kind_free_text": "Rust workspace: vmodel (AST, serialisers, reference semantics, enumerators, verdict plumbing), vparse (L1: real parse_locales on generated projects), further harness binaries per seam; ./check dispatches and merges evidence"},
+             "kind_free_text": "Rust workspace: vmodel (AST, serialisers, reference semantics, enumerators, verdict plumbing), vparse (L1: real parse_locales on generated projects), vcodegen (L2: proc-macro sources included, load_locales() in worker processes), vgen (L3: generated probe crates compiled through the proc-macro and executed), vrt / vrouter / vbuild (native run time), vloom (loom, own workspace); ./check dispatches and merges evidence; see DESIGN.md section 9"},
         ],
         "checks": checks,
         "not_applicable": na,
